@@ -150,6 +150,19 @@ def shard(items, n):
     return [items[i:i + k] for i in range(0, len(items), k)]
 
 
+def _big_stack():
+    # extracted list functions are not tail recursive; patterns such as (<x> | <y>)... have 2^n bindings
+    import resource
+    try:
+        resource.setrlimit(resource.RLIMIT_STACK, (resource.RLIM_INFINITY, resource.RLIM_INFINITY))
+    except Exception:
+        try:
+            soft, hard = resource.getrlimit(resource.RLIMIT_STACK)
+            resource.setrlimit(resource.RLIMIT_STACK, (hard, hard))
+        except Exception:
+            pass
+
+
 def run_oracle(lines, timeout=900):
     """lines: list of s-expression strings -> list of result strings (same order)"""
     if not lines:
@@ -157,7 +170,8 @@ def run_oracle(lines, timeout=900):
     parts = shard(lines, NPROC)
     procs = []
     for p in parts:
-        pr = subprocess.Popen([ORACLE], stdin=subprocess.PIPE, stdout=subprocess.PIPE, stderr=subprocess.PIPE, text=True)
+        pr = subprocess.Popen([ORACLE], stdin=subprocess.PIPE, stdout=subprocess.PIPE, stderr=subprocess.PIPE, text=True,
+                              preexec_fn=_big_stack)
         procs.append((pr, p))
     # feed concurrently via threads to avoid pipe deadlocks
     import threading
@@ -310,6 +324,9 @@ class Run:
         for kid, (n, what) in sorted(self.known_hits.items()):
             if kid in listed:
                 print("KNOWN-FINDING: property=%s %s: %s (%d case(s) this run)" % (self.pid, kid, listed[kid]["what"], n))
+            else:
+                self.violations.append(("unlisted-class: %d case(s) were attributed to class %s which known_findings.json does not list for %s" % (n, kid, self.pid),
+                                        dict(klass=kid), True))
         rc = 0
         # one VIOLATION line per distinct kind (first replay of each), real failing inputs first
         seen = set()
